@@ -251,6 +251,12 @@ def sub_programs(program):
             if f["m"] not in ("S", "V", "A", "P"):
                 yield fields[:i] + [dict(f, m="P")] + fields[i + 1:]
 
+    n = len(program["fields"])
+    if n > 40:      # large operations: bisect instead of dropping one field at a time
+        yield dict(program, fields=program["fields"][:n // 2])
+        yield dict(program, fields=program["fields"][n // 2:])
+        yield dict(program, fields=program["fields"][:n - n // 8])
+        return
     if "render" in program:
         yield {k: v for k, v in program.items() if k != "render"}
     if program.get("mw"):
